@@ -1003,6 +1003,11 @@ pub fn check_c17(h: &Hist) -> POut {
         if closes.iter().any(|c| *c < cp.seq) {
             break;
         }
+        // once the application has reset the counters itself the conservation equations no longer
+        // relate them to the cache's contents
+        if h.ops.iter().any(|o| matches!(o.op, Op::MetricsReset) && o.inv_seq < cp.seq) {
+            break;
+        }
         let Some(m) = &cp.snap.metrics else { continue };
         let Some((_, used, pol)) = &cp.snap.policy else { continue };
         let last_clear = h.ops.iter().filter(|o| matches!(o.op, Op::Clear) && o.inv_seq < cp.seq).last();
